@@ -210,7 +210,36 @@ def render_program(key):
 
 
 # ---- file-level layout variants (applied to a rendered program) ---------------------------------------------------------------------
-LAYOUTS = ["lf", "crlf", "tabs", "no_trailing_newline", "single_quote_doc", "raw_doc", "semicolon_body"]
+LAYOUTS = ["lf", "crlf", "tabs", "no_trailing_newline", "single_quote_doc", "raw_doc", "semicolon_body", "blank_after_header", "blank_after_docstring", "comment_after_header"]
+
+
+def _after_headers(src, what):
+    """insert `what` (a blank line, or a comment line at body indentation) between every def/class header and the first statement of its body"""
+    import ast
+
+    lines = src.split("\n")
+    at = []
+    for node in ast.walk(ast.parse(src)):
+        if isinstance(node, (ast.FunctionDef, ast.AsyncFunctionDef, ast.ClassDef)) and node.body[0].lineno > node.lineno:
+            first = node.body[0]
+            at.append((first.lineno - 1, " " * first.col_offset))
+    for idx, ind in sorted(at, reverse=True):
+        lines.insert(idx, "" if what == "blank" else ind + "# note under the header")
+    return "\n".join(lines)
+
+
+def _after_docstrings(src):
+    import ast
+
+    lines = src.split("\n")
+    at = []
+    for node in ast.walk(ast.parse(src)):
+        if isinstance(node, (ast.FunctionDef, ast.AsyncFunctionDef, ast.ClassDef)) and len(node.body) > 1 and isinstance(node.body[0], ast.Expr) and isinstance(getattr(node.body[0], "value", None), ast.Constant) \
+                and isinstance(node.body[0].value.value, str):
+            at.append(node.body[0].end_lineno)
+    for idx in sorted(at, reverse=True):
+        lines.insert(idx, "")
+    return "\n".join(lines)
 
 
 def apply_layout(src, layout):
@@ -226,6 +255,12 @@ def apply_layout(src, layout):
         return src.replace('"""', "'''")
     if layout == "raw_doc":
         return src.replace('"""', 'r"""', 1) if src.count('"""') >= 2 else src
+    if layout == "blank_after_header":
+        return _after_headers(src, "blank")
+    if layout == "comment_after_header":
+        return _after_headers(src, "comment")
+    if layout == "blank_after_docstring":
+        return _after_docstrings(src)
     if layout == "semicolon_body":
         return src.replace("x = 1  # trailing comment", "x = 1; w = 2  # trailing comment").replace("pass\n", "pass; pass\n", 1)
     raise ValueError(layout)
